@@ -27,7 +27,10 @@ ASSUMPTIONS = [
 SHAPES = [("cat", "cat")] * 3 + [("cat", "mr")] * 2 + [("mr", "cat")] * 2 + [("mr", "mr")] * 3 + [
     ("cai", "cac"), ("cac", "cai"), ("cat_date", "mr"), ("text", "cat"),
     ("cat", "cat", "cat"), ("cat", "mr", "mr"), ("mr", "cat", "mr"), ("mr", "mr", "cat"),
-    ("cai", "cac", "mr"), ("na", "cat"), ("na", "mr")]
+    ("cai", "cac", "mr"), ("na", "cat"), ("na", "mr"),
+    # enum-backed dimensions: elements are addressed by value (datetime) or position id
+    ("datetime", "cat"), ("cat", "datetime"), ("datetime", "mr"), ("numeric", "cat"),
+    ("cat", "logical")]
 
 
 @st.composite
@@ -208,6 +211,7 @@ def _weighted_zero_event(orc, rec, strand):
 
 SUBCHECKS = [
     SubCheck("slices", case_st(SHAPES), judge, quick=2400, thorough=40000),
-    SubCheck("strands", case_st([("cat",), ("mr",), ("mr",), ("cat_date",), ("na",)]), judge,
+    SubCheck("strands", case_st([("cat",), ("mr",), ("mr",), ("cat_date",), ("na",), ("datetime",),
+                                 ("text",)]), judge,
              quick=1200, thorough=20000),
 ]
